@@ -228,6 +228,8 @@ type ICMPInfo struct {
 	ICMPPair IPPair
 	// Payload is the payload from within the wrapped IP packet, typically containing the first 8 bytes of TCP/UDP.
 	Payload []byte
+	// WrappedProtocol is the protocol (IPv4) / next header (IPv6) of the wrapped IP packet
+	WrappedProtocol layers.IPProtocol
 }
 
 // IsTTLExceeded returns true if the packet is a TTL exceeded ICMP response
@@ -273,6 +275,7 @@ func (p *FrameParser) GetICMPInfo() (ICMPInfo, error) {
 			WrappedPacketID: innerPkt.Id,
 			ICMPPair:        getIPv4Pair(&innerPkt),
 			Payload:         slices.Clone(innerPkt.Payload),
+			WrappedProtocol: innerPkt.Protocol,
 		}
 		return icmpInfo, nil
 	case layers.LayerTypeICMPv6:
@@ -294,6 +297,7 @@ func (p *FrameParser) GetICMPInfo() (ICMPInfo, error) {
 			WrappedPacketID: wrappedPktID,
 			ICMPPair:        getIPv6Pair(&innerPkt),
 			Payload:         slices.Clone(innerPkt.Payload),
+			WrappedProtocol: innerPkt.NextHeader,
 		}
 		return icmpInfo, nil
 	default:
